@@ -10,8 +10,9 @@ import (
 )
 
 type condFact struct {
-	Cond ssa.Value
-	Val  bool
+	Cond   ssa.Value
+	Val    bool
+	Origin *ssa.BasicBlock // the block whose branch established the fact
 }
 
 type fnFacts struct {
@@ -174,7 +175,10 @@ func (ff *fnFacts) At(b *ssa.BasicBlock) []condFact {
 			if !ff.Dominates(s, b) {
 				continue
 			}
-			out = append(out, normFact(iff.Cond, i == 0)...)
+			for _, nf := range normFact(iff.Cond, i == 0) {
+				nf.Origin = x
+				out = append(out, nf)
+			}
 		}
 	}
 	return out
@@ -190,7 +194,7 @@ func normFact(v ssa.Value, val bool) []condFact {
 		}
 		break
 	}
-	return []condFact{{v, val}}
+	return []condFact{{Cond: v, Val: val}}
 }
 
 // sameValue: SSA value identity modulo loads of the same unmodified cell and conversions.
